@@ -43,6 +43,7 @@ type Ctx struct {
 	Prop   string
 	Obs    []Ob
 	floors map[string]int
+	extra  map[string]int // additional weight of sites in shared helpers, per rule
 	Notes  []string
 }
 
@@ -52,6 +53,20 @@ func NewCtx(p *Prog, prop string) *Ctx {
 
 func (c *Ctx) add(st Status, rule string, fn *ssa.Function, pos token.Pos, site, want, detail string) {
 	c.Obs = append(c.Obs, Ob{Rule: rule, Fn: FName(fn), Site: site, Pos: c.P.Pos(pos), Want: want, Detail: detail, Status: st})
+	// a site inside an unexported helper shared by k callers stands for k
+	// sites of the code before the helper was extracted: the instance floors
+	// (a guard against vacuous rules, counted on the pinned tree) weigh it so
+	if fn != nil {
+		g := Outer(fn)
+		if obj := g.Object(); obj != nil && !obj.Exported() && g.Blocks != nil {
+			if k := len(StaticCallSites(g)); k > 1 {
+				if c.extra == nil {
+					c.extra = map[string]int{}
+				}
+				c.extra[rule] += k - 1
+			}
+		}
+	}
 }
 
 // Ok records a discharged obligation.
@@ -170,7 +185,7 @@ type Result struct {
 // evidence and replay files and prints the verdict lines.  verifDir is /verif.
 func (c *Ctx) Finish(verifDir, tier string, seed int, t0 time.Time, explanation string, notDecided string, trusted []string, assumptions []string, extra map[string]any) Result {
 	for rule, n := range c.floors {
-		if got := c.Count(rule); got < n {
+		if got := c.Count(rule) + c.extra[rule]; got < n {
 			c.Obs = append(c.Obs, Ob{Rule: rule, Fn: "-", Site: "instance floor", Pos: "-", Status: Undecided,
 				Detail: fmt.Sprintf("rule ranged over %d sites, expected at least %d (confirmed by hand on the pinned tree); a rule matching fewer sites would pass vacuously", got, n)})
 		}
